@@ -19,6 +19,7 @@ fn run_line(line: &str) -> String {
         "SINK" => s_sink::run(&idc, &restc),
         "ENC" => s_enc::run(&idc, &restc),
         "DLV" => s_enc::run_dlv(&idc, &restc),
+        "FAIL" => s_enc::run_fail(&idc, &restc),
         "CNT" => s_cnt::run(&idc, &restc),
         "RICE" => s_rice::run(&idc, &restc),
         _ => format!("{} unknown-stream", idc),
@@ -38,6 +39,7 @@ fn main() {
                 "SINK" => s_sink::gen(seed, n, &mut out),
                 "ENC" => s_enc::gen(seed, n, &mut out),
                 "DLV" => s_enc::gen_dlv(seed, n, &mut out),
+                "FAIL" => s_enc::gen_fail(seed, n, &mut out),
                 "CNT" => s_cnt::gen(seed, n, &mut out),
                 "RICE" => s_rice::gen(seed, n, &mut out),
                 _ => panic!("unknown stream"),
@@ -58,6 +60,7 @@ fn main() {
                 let l = match stream {
                     "ENC" => s_enc::augment(&line, rest),
                     "DLV" => { let (_m, r2) = rest.split_once(' ').unwrap(); s_enc::augment(&line, r2) }
+                    "FAIL" => { let t: Vec<&str> = rest.splitn(3, ' ').collect(); s_enc::augment(&line, t[2]) }
                     _ => line.clone(),
                 };
                 writeln!(o, "{}", l).unwrap();
